@@ -9,7 +9,7 @@ if os.environ.get('CHECKS'):
     checks = os.environ['CHECKS'].split(',')
 patches = []
 for d in sys.argv[1:]:
-    patches += sorted(glob.glob(os.path.join(d, '*.diff'))) if os.path.isdir(d) else [os.path.abspath(d)]
+    patches += sorted(glob.glob(os.path.join(os.path.abspath(d), '*.diff'))) if os.path.isdir(d) else [os.path.abspath(d)]
 work = tempfile.mkdtemp(prefix='refmatrix_')
 repo = work + '/repo'
 subprocess.check_call(['rsync', '-a', '--exclude', 'target', '--exclude', '.git', '/repo/', repo + '/'])
